@@ -423,6 +423,16 @@ func run(r *vk.Runner) {
 	cases = append(cases, gj5s.ServiceCases()...)
 	cases = append(cases, gj5s.TopicCases()...)
 	cases = append(cases, gj5s.PipelineCases()...)
+	if !r.Quick() {
+		// every object of the field-pair programs as the body and the response of a method
+		for _, c := range gj5s.PairFieldCases() {
+			f := c.P.Files[0]
+			foo := f.Decls[0].(*gj5s.Decl)
+			f.Add(&gj5s.Service{Name: "Pair", BasePath: "/t/v1", Methods: []*gj5s.Method{{Name: "PutPair", Verb: "POST", Path: "/pair", HasResponse: true,
+				Request: []*gj5s.Field{{Name: "foo", T: gj5s.RefTo(foo, "")}}, Response: []*gj5s.Field{{Name: "foo", T: gj5s.RefTo(foo, "")}}}}})
+			cases = append(cases, c)
+		}
+	}
 	for _, c := range gj5s.EntityCases(!r.Quick()) {
 		if !strings.HasPrefix(c.ID, "entity:5.") {
 			cases = append(cases, c)
